@@ -28,11 +28,14 @@ def check(run, tier):
             # the same components in the other insertion order with other fractions (dict order must not matter)
             {"z": (1, 4), "x": (3, 4)}, {"y": (1, 4), "x": (3, 4)}]
     ps = []
+    k = 0
     for va in range(0, 7 if q else 13):
         for vb in range(0, 7 if q else 13):
             for a in pool:
                 for b in pool:
-                    if (va + vb + len(ps)) % (3 if q else 1) == 0:
+                    k += 1
+                    # quick: every third combination, shifted with the volumes so that every pair of compositions is met
+                    if (va + vb + k) % (3 if q else 1) == 0:
                         ps.append({"x": "combine", "va": va, "vb": vb, "a": a, "b": b})
     run_calls(run, ps, batch=3000, nontrivial=lambda rec: rec["aknown"] and rec["bknown"] and rec["va"] > 0 and rec["vb"] > 0)
     progs = targeted.worklist_programs("evo") + targeted.naming_programs()
